@@ -368,7 +368,24 @@ ClauseFree(c) ==
         bad == {k \in 1..Len(r) : r[k] # "ok"}
     IN IF bad # {} THEN r[CHOOSE k \in bad : \A j \in bad : k <= j] ELSE "ok"
 
-Clause(c) == IF c.kind = "free" THEN ClauseFree(c) ELSE ClauseMesh(c)
+\* Gauss-Bonnet on larger closed manifolds whose vertices sit on an integer lattice, many of them
+\* nearly flat (true defect 1e-8 .. 1e-5 rad): the recorded value is round(sum(defects) / 2 pi * 10^8).
+\* Well-shaped triangles keep the float error of one corner angle near 1e-16, so the sum is judged at
+\* 2 + nv / 50 units of 2 pi * 10^-8; the property promises the sum, not the single defects.
+ClauseGauss(c) ==
+    LET F == c.faces
+        S == EdgesSorted(F)
+        U == Range(S)
+    IN IF ~ClosedManifold(F, c.nv) THEN "ok"          \* RefSane holds the generator to its label
+       ELSE IF c.eul # Euler(F, U) THEN "euler_number_v_minus_e_plus_f"
+       ELSE IF c.wt # TRUE THEN "is_watertight_every_edge_twice"
+       ELSE IF Len(c.vdn) # 1 \/ c.vdn[1] # c.nv THEN "vertex_defects_shape"
+       ELSE IF Abs(c.defect8 - 100000000 * Euler(F, U)) > 2 + (c.nv \div 50)
+            THEN "vertex_defects_sum_two_pi_euler"
+       ELSE "ok"
+
+Clause(c) == IF c.kind = "free" THEN ClauseFree(c)
+             ELSE IF c.kind = "gauss" THEN ClauseGauss(c) ELSE ClauseMesh(c)
 
 Init == i = 1
 Next == i < Len(Cases) /\ i' = i + 1
